@@ -11,7 +11,10 @@ dst = f"/verif/seeded/{name}"
 os.makedirs(dst, exist_ok=True)
 shutil.copy(f"/tmp/confirm/{name}.rebased.diff", f"{dst}/patch.diff")
 shutil.copy(f"{inbox}/demo{k}.py", f"{dst}/demo.py")
-notes = open(f"{inbox}/notes.md").read() if os.path.exists(f"{inbox}/notes.md") else ""
+round2 = k not in ("", "2") and not (src_dir == "C17" and k == "3")
+nfile = f"{inbox}/notes2.md" if round2 else f"{inbox}/notes.md"
+if os.path.exists(nfile):
+    shutil.copy(nfile, f"{dst}/notes.md")
 meta = dict(id=name, breaks_property=prop, needs_to_manifest=needs,
             confirmed=dict(worktree_head=conf["head"], patch_applies=True, demo_exit_without_change=conf["demo_clean_rc"],
                            demo_exit_with_change=conf["demo_mut_rc"], repo_tests_passed_with_change=conf["npass"],
